@@ -5,10 +5,11 @@ from . import checks, core
 
 
 def all_checks():
-    from . import hchecks, lchecks
+    from . import hchecks, lchecks, cchecks
     d = dict(checks.CHECKS)
     d.update(hchecks.HCHECKS)
     d.update(lchecks.LCHECKS)
+    d.update(cchecks.CCHECKS)
     return d
 
 
